@@ -147,6 +147,34 @@ class Prop:
             for (label, sched), o in zip(cases, outs):
                 ctx.count(label.split(' reuse')[0] if label != 'random' else 'random')
                 check_schedule(ctx, fe, sched, o, {'frontend': fe})
+        # model-versus-implementation only: sequences with leftovers of incomplete sets
+        left = self.leftovers(ctx.rng('c03-left'), 300 if ctx.tier == 'quick' else 5000)
+        for fe in ('iter', 'queue'):
+            ops = ['stream %s 0 %s' % (fe, ' '.join(l.hex() for l in lines)) for lines in left]
+            ctx.corr(ops, impl.step, 'stream-%s-leftovers' % fe, nontrivial=lambda l, o: '0a21' in o)
+
+    def leftovers(self, rng, count):
+        """line sequences with incomplete fragment sets (lost fragments) followed by complete sets in the same
+        slot.  What the readers deliver then is not fixed by the property (it speaks about complete sets), but
+        it is fixed by the model: these sequences are compared model-versus-implementation only."""
+        out = []
+        for _ in range(count):
+            seq, chan = rng.choice(['1', '0', '', '7']), rng.choice('AB')
+            lines = []
+            for _ in range(rng.randint(2, 4)):
+                n = rng.randint(2, 4)
+                bits = gen.payload_bits(rng, 'MessageType8', length=rng.randint(120, 500))
+                payload, _ = gen.armor(bits)
+                cuts = sorted(rng.sample(range(1, len(payload)), n - 1))
+                frs = gen.render(bits, seq=seq, chan=chan, cuts=cuts)
+                r = rng.random()
+                if r < 0.4:
+                    frs = [frs[j] for j in sorted(rng.sample(range(n), rng.randint(1, n - 1)))]
+                elif r < 0.6:
+                    rng.shuffle(frs)
+                lines += frs
+            out.append(lines)
+        return out
 
     def replay(self, ctx, payload):
         inp = payload['failure']['input']
